@@ -899,6 +899,12 @@ func (c *FnCtx) execInstr(fr *Frame, st *State, instr ssa.Instruction) {
 		if res != nil {
 			fr.regs[x] = res
 		}
+		// ghost updates attached to this call (`after OPKEY: x = e`) in sequential functions
+		if c.og != nil && c.og.inv == nil && fr.depth == 0 && c.inSpec == 0 {
+			if key := c.opKeyOf(fr, x); key != "" {
+				c.ogApplyAfters(fr, st, key, TTrue, nil)
+			}
+		}
 	case *ssa.Defer:
 		st.armed[x] = TTrue
 		// remember argument values at defer time
